@@ -553,6 +553,11 @@ def _run(case, ctx, rng, kind, scheme, dim, et, key0, root):
                         decoy.mesh = d2.mesh
                         decoy.Save_Iter()
                     decoy.Save(S)
+            if rng.random() < 0.3 and not own:
+                # the folder given relative to the working directory (the scratch root)
+                os.chdir(root)
+                S = os.path.relpath(S, root)
+                ctx.event("Save-into-relative-folder")
             live.Save(S)
             loaded = Load_Simu(S)
         k = key0 + "/Save+Load_Simu"
